@@ -2119,6 +2119,20 @@ def _r10_is_lookup(t):
     return not re.match(r'^<?core::(result::Result|option::Option)\b', t['f'].get('def') or t['f'].get('decl') or '')
 
 
+def _r10_mut_ref_target(du, operand, depth=6):
+    """The local a `&mut` operand (possibly reborrowed: `&mut *(&mut x)`) points at, or None."""
+    org = du.origin(operand)
+    while depth > 0 and org['k'] == 'ref' and org.get('mut'):
+        depth -= 1
+        pl = org['pl']
+        if not pl.get('p'):
+            return pl['l']
+        if pl['p'] != ['*']:
+            return None
+        org = du.origin({'cp': {'l': pl['l']}})
+    return None
+
+
 def _r10_sources(F, body, du, operand, depth=40, hops=2, seen=None):
     """Where the text in `operand` comes from: leaves ('literal', what) | ('other', what, node) | ('unknown', what, node)."""
     seen = set() if seen is None else seen
@@ -2142,9 +2156,8 @@ def _r10_sources(F, body, du, operand, depth=40, hops=2, seen=None):
         # a buffer filled through an out-parameter: `let mut s = String::new(); word.extend_literal(&mut s)`
         filled = []
         for blk, t in body.calls():
-            for i, a in enumerate(t['a'][1:], 1):
-                org = du.origin(a)
-                if org['k'] == 'ref' and org['pl'].get('l') == l and not org['pl'].get('p') and org.get('mut'):
+            for a in t['a'][1:]:
+                if _r10_mut_ref_target(du, a) == l:
                     filled.append(t)
         if filled:
             out = []
